@@ -16,7 +16,9 @@ CLAIMED = {
              'each of the ~490 (class, path) groups is executed by emulate_cycle() on members of its cubes - '
              'representative, all-ones, one flip per free bit of the widest cubes (affine basis), random - under random '
              'registers, flags and modes on 6 configurations, and TLC judges every step: full post-state where the spec '
-             'specifies the encoding, outcome class (undef / not-implemented / completed) elsewhere, no host error.',
+             'specifies the encoding, outcome class (undef / not-implemented / completed) elsewhere, no host error. In addition '
+             'the repository\'s own test suite is run under a recording pytest plugin and every emulate_cycle() its tests perform '
+             'in ARM state (~300 events) is judged by TLC on the complete state.',
         note='exhaustive for the implementation\'s class selection; agreement between the spec\'s decode and each cube is '
              'decided on sampled members (quick ~25k words, thorough ~10^6), not on all 2^32 words; families Decode.tla marks '
              'Unspec (coprocessor, exclusives, memory hints, banked MRS/MSR, Advanced SIMD) are judged by outcome class only; '
@@ -30,7 +32,9 @@ CLAIMED = {
              'clause `ilen` compares the implementation\'s opcode_len with the specification\'s top-five-bits rule. The 32-bit '
              'decoder tree is partitioned exhaustively into ~25k cubes tiling 3*2^27 words; each of the ~430 (class, path) '
              'groups is executed on cube members (representative, all-ones, per-free-bit flips, random) inside and outside IT '
-             'blocks and judged by TLC. MC_Decode (TLC): totality / executability of the spec decode; MC_Cond: IT machine.',
+             'blocks and judged by TLC. MC_Decode (TLC): totality / executability of the spec decode; MC_Cond: IT machine. The '
+             'repository\'s own test suite is run under a recording pytest plugin and every emulate_cycle() its tests perform in '
+             'Thumb state (~600 events) is judged by TLC on the complete state.',
         note='16-bit space exhaustive x IT position; 32-bit: exhaustive class partition of the implementation, sampled '
              'members per cube for agreement with the spec; families marked Unspec are judged by outcome class only; carry-in '
              'dependence is covered through random C with modified immediates / shifts.',
